@@ -53,9 +53,28 @@ def items_for(ctx):
     return f
 
 
+def loop_cancel_items(ctx):
+    """a loop with more items than its parallelism, cancelled while the first items execute and the others are queued"""
+    def f(rng):
+        import check_c13
+        items = []
+        for n, par, after in ([(3, 1, 40)] if ctx.quick else [(3, 1, 40), (4, 2, 30), (6, 2, 90), (3, 1, 5)]):
+            it = check_c13.loop_item(rng, n, par, ['success'] * n, delays=[120] * n)
+            it.pop('expect_items', None)
+            it['schedule'] = None
+            it['cancel'] = True
+            it['nomeaning'] = True
+            it['bound_ms'] = GRACE_MS + 2000 + MARGIN_MS
+            it['at'] = 'loop n=%d par=%d cancel after %d ms' % (n, par, after)
+            it['extra'] = {'timeout_ms': 30000, 'runs': [{'input': it['input'], 'cancel_after_ms': after}]}
+            items.append(it)
+        return items
+    return f
+
+
 def run(ctx):
     prof = dict(max_steps=3, p_tag=0.0)
-    items, findings, stats = family.run_family_check(ctx, 'C06', n_quick=4, n_thorough=20, profile=prof, extra_items=items_for(ctx))
+    items, findings, stats = family.run_family_check(ctx, 'C06', n_quick=4, n_thorough=20, profile=prof, extra_items=lambda rng: items_for(ctx)(rng) + loop_cancel_items(ctx)(rng))
     worst = 0.0
     ncancel = 0
     for it in items:
